@@ -75,7 +75,7 @@ class C11(PureCheck):
             ev["res"] = fmtlib.enc_list_res(interleaved)
             del ev["with"]
             return ev
-        ev["res"] = fmtlib.enc_list_res(lambda: f.width_aware_splitlines(inp["cols"]))
+        ev["res"] = fmtlib.enc_list_res(lambda: enc.call(f.width_aware_splitlines, inp["cols"]))
         return ev
 
     def classify(self, ev):
